@@ -331,6 +331,7 @@ impl SimCtrl {
                 }
             }
         }
+        out.sort_by(|a, b| a.label.cmp(&b.label));
         for p in g.aparked.iter() {
             if p.epoch == g.epoch && !p.released {
                 out.push(Enabled {
@@ -612,25 +613,27 @@ impl xs::verif::Controller for SimCtrl {
         })
     }
 
-    fn expect_thread(&self, _kind: &'static str) {
-        let mut g = self.lock();
-        if g.active {
-            g.pending += 1;
-        }
-    }
-
-    fn thread_begin(&self, kind: &'static str) {
+    fn expect_thread(&self, kind: &'static str) -> u64 {
         let mut g = self.lock();
         if !g.active {
+            return u64::MAX;
+        }
+        g.pending += 1;
+        // identity = spawn order within the kind; the epoch rides along so that a thread
+        // spawned by a stale incarnation is not mistaken for one of the current run
+        let c = g.kind_count.entry(kind).or_insert(0);
+        let k = *c as u64;
+        *c += 1;
+        (g.epoch << 32) | k
+    }
+
+    fn thread_begin(&self, kind: &'static str, ticket: u64) {
+        let mut g = self.lock();
+        if !g.active || ticket == u64::MAX || (ticket >> 32) != g.epoch {
             return;
         }
         let epoch = g.epoch;
-        let kidx = {
-            let c = g.kind_count.entry(kind).or_insert(0);
-            let k = *c;
-            *c += 1;
-            k
-        };
+        let kidx = (ticket & 0xffff_ffff) as usize;
         // recycle Done slots of stale epochs
         g.actors.push(Actor {
             kind,
